@@ -173,10 +173,29 @@ func build(impl string, h int, u, x []int, profile int) (ops []Op, nt bool) {
 	return
 }
 
+// rereadVariant rotates the order of the observers: each of them (and Has) must sometimes be the FIRST
+// call on a freshly built internal layout, because Slice/Len/String/Range promote the dirty map of a
+// sync2.Set and would otherwise hide a wrong answer of the observers that run after them.
+var rereadVariant int
+
 func reread(h int, u []int) []Op {
-	ops := []Op{{K: "slice", H: h}, {K: "len", H: h}, {K: "string", H: h}}
-	for _, v := range u {
-		ops = append(ops, Op{K: "has", H: h, V: v})
+	obs := []Op{{K: "slice", H: h}, {K: "len", H: h}, {K: "string", H: h}}
+	rereadVariant++
+	r := rereadVariant % 4
+	var ops []Op
+	hasOps := func() {
+		for _, v := range u {
+			ops = append(ops, Op{K: "has", H: h, V: v})
+		}
+	}
+	if r == 3 {
+		hasOps()
+	}
+	for i := 0; i < 3; i++ {
+		ops = append(ops, obs[(i+r)%3])
+	}
+	if r != 3 {
+		hasOps()
 	}
 	return ops
 }
